@@ -83,6 +83,11 @@ def check(ctx):
     if bad:
       ctx.info('out of scope of C15 (metadata *request* is not in the statement): _SerializeMetadataRequest has %d malformed pack site(s)' % len(bad))
   r2(ctx, bh)
+  ks = prog.func(KS, 'KafkaSerializerSink.AsyncProcessRequest')
+  helpers = [prog.func(KP, 'KafkaProtocol.SerializeMessage'), prog.func(KP, 'KafkaProtocol._SerializeProduceRequest')]
+  helpers += [f for f in prog.all_funcs if f.module.rel == BIN and f.cls is not None and f.cls.name == 'BinaryWriter']
+  wire.fresh_stream_rules(ctx, 'C15.R2', ks, helpers)
+  wire.transport_len_rules(ctx, 'C15.R2')
   r3(ctx)
   r4(ctx, bh, pr)
   r5(ctx)
@@ -217,6 +222,8 @@ def r3(ctx):
         if prev is not None:
           if len(c.args) < 2 or U(c.args[1]) != prev:
             chain_ok = False
+        elif len(c.args) > 1 and not (isinstance(c.args[1], ast.Constant) and c.args[1].value == 0):
+          chain_ok = False     # the first crc32 of a message must start a fresh checksum
         prev = e.node.targets[0].id if isinstance(e.node.targets[0], ast.Name) else None
       if e.kind == 'call' and call_attr(e.node) == 'WriteRaw':
         raw.append(U(e.node.args[0]))
